@@ -588,6 +588,7 @@ def replay_kernel(model, params, clause, info):
     sq = _spec_fns()
     detail, bad = [], False
     fam = clause.split(".")[0]
+    fam = {"operators": "sum_product"}.get(fam, fam)
     for bs in ([], [2]):
         for ard in (False, True):
             d = 3
@@ -657,6 +658,10 @@ def replay_kernel(model, params, clause, info):
                 for kk, f in ((k1 + k2, lambda a, b_: k1(a, b_).to_dense() + k2(a, b_).to_dense()), (k1 * k2, lambda a, b_: k1(a, b_).to_dense() * k2(a, b_).to_dense()),
                               (k1 + k2 + k3, lambda a, b_: k1(a, b_).to_dense() + k2(a, b_).to_dense() + k3(a, b_).to_dense()),
                               (k3 * (k1 + k2), lambda a, b_: k3(a, b_).to_dense() * (k1(a, b_).to_dense() + k2(a, b_).to_dense())),
+                              (k1 + (k2 + k3), lambda a, b_: k1(a, b_).to_dense() + k2(a, b_).to_dense() + k3(a, b_).to_dense()),
+                              (k1 * (k2 * k3), lambda a, b_: k1(a, b_).to_dense() * k2(a, b_).to_dense() * k3(a, b_).to_dense()),
+                              ((k1 + k2) * k3, lambda a, b_: k3(a, b_).to_dense() * (k1(a, b_).to_dense() + k2(a, b_).to_dense())),
+                              ((k1 * k2) + k3, lambda a, b_: k3(a, b_).to_dense() + (k1(a, b_).to_dense() * k2(a, b_).to_dense())),
                               (k1 * k2 * k3, lambda a, b_: k1(a, b_).to_dense() * k2(a, b_).to_dense() * k3(a, b_).to_dense())):
                     cands.append((kk, f))
             for k, f in cands:
